@@ -141,6 +141,8 @@ class CommandsCache(cabc.Mapping):
     def __init__(self, env, aliases=None) -> None:
         # cache commands in path by mtime
         self._paths_cache: dict[str, _Commands] = {}
+        # the $PATH directories (in order) the commands were last collected from
+        self._paths_order: tuple[str, ...] | None = None
 
         # wrap aliases and commands in one place
         self._cmds_cache: dict[str, tuple[str, bool | None]] = {}
@@ -289,7 +291,10 @@ class CommandsCache(cabc.Mapping):
                 # the file is corrupt
                 self.cache_file.unlink(missing_ok=True)
 
-        updated = False
+        # a reordered, shortened or extended $PATH changes which file wins
+        # even when no directory was touched
+        updated = self._paths_order != tuple(paths)
+        self._paths_order = tuple(paths)
         for path in paths:
             try:
                 modified_time = os.path.getmtime(path)
